@@ -183,6 +183,15 @@ func (r *Runner) quietPhase() {
 	r.quiet = true
 	r.cut = map[[2]string]bool{}
 	w.Net.ReleaseHeld()
+	for _, rec := range r.notif {
+		rec.delay = 0
+	}
+	r.isolated = map[string]*isoRec{}
+	for _, rj := range r.rejoins {
+		if w.Now() < rj.at+int64(10*r.maxHB()/time.Millisecond) {
+			rj.checked = true
+		}
+	}
 	faultSpan := w.Now()
 	w.EvLocked(sim.Event{Kind: "quiet"})
 	w.Mu.Unlock()
